@@ -256,9 +256,12 @@ Definition reorg (s : st) (o n : block) : option st :=
   end.
 
 (* ---- WriteBlockWithState -------------------------------------------------- *)
-Definition write_block_with_state (b : block) (s : st) : st * err :=
+(* p: the parent the block was processed on.  state.Commit + TrieDB().Commit
+   flush the trie nodes the block's execution created, whether or not they are
+   on disk already; a block that leaves the state unchanged creates none. *)
+Definition write_block_with_state (p b : block) (s : st) : st * err :=
   let s := write_block b s in
-  let s := if has_state (disk_of s) (broot b) then s else wr false [WState (broot b)] s in
+  let s := if broot b =? broot p then s else wr false [WState (broot b)] s in
   let rc := match btxs b with [] => [] | _ => [WRcpt (bid b)] end in
   let r :=
     if bpar b =? cur s then Some s
@@ -379,7 +382,7 @@ Fixpoint ic_loop (side : st -> list block -> st * err) (s : st) (items : list (b
       | Some p =>
         if negb (has_state (disk_of s) (broot p)) then (s, EStateMissing)
         else if negb (bbv b =? 0) then (s, EBadState)
-        else match write_block_with_state b s with
+        else match write_block_with_state p b s with
              | (s', ENone) => ic_loop side s' rest (Some b)
              | (s', e) => (s', e)
              end
@@ -492,7 +495,9 @@ Definition lookups_ok (d : disk) (headnum : N) : bool :=
 Definition canon_good (d : disk) : bool :=
   forallb (fun nh => match info t (snd nh) with Some b => good_block b | None => false end) (d_canon d).
 
-Definition consistent_b (d : disk) (head : N) : bool :=
+(* clauses 1-3 of the property: index parent-linked from genesis to head, head
+   state available, lookups point into canonical blocks at or below the head *)
+Definition chain_consistent_b (d : disk) (head : N) : bool :=
   match info t head with
   | None => false
   | Some hb =>
@@ -500,8 +505,11 @@ Definition consistent_b (d : disk) (head : N) : bool :=
     | Some h => (h =? head) && linked_down (fuel_of hb) d (bnum hb) head
     | None => false
     end
-    && has_state d (broot hb) && lookups_ok d (bnum hb) && canon_good d
+    && has_state d (broot hb) && lookups_ok d (bnum hb)
   end.
+
+(* plus clause 4: no invalid block anywhere in the canonical index *)
+Definition consistent_b (d : disk) (head : N) : bool := chain_consistent_b d head && canon_good d.
 
 End Import.
 
@@ -520,6 +528,14 @@ Definition init_st (g : block) : st := mkS (init_disk g) (bid g) [] [] None fals
 Definition clear_log (s : st) : st := mkS (disk_of s) (cur s) (future s) [] (budget s) (crashmid s).
 Definition with_budget (k : option nat) (s : st) : st := mkS (disk_of s) (cur s) (future s) [] k false.
 Definition fresh (d : disk) (head : N) : st := mkS d head [] [] None false.
+
+(* a history: batches of block ids offered to InsertChain one after the other *)
+Definition run (t : tree) (fuel : nat) (s : st) (hist : list (list N)) : st :=
+  fold_left (fun s ids => fst (InsertChain t fuel s (blocks_of t ids))) hist s.
+
+(* the process is killed after the k-th database write of the import of [batch] *)
+Definition crash_run (t : tree) (fuel : nat) (s : st) (batch : list N) (k : nat) : st :=
+  fst (InsertChain t fuel (with_budget (Some k) s) (blocks_of t batch)).
 
 (* ---- correspondence runner ----------------------------------------------------- *)
 
@@ -588,9 +604,9 @@ Definition crash_ok (t : tree) (s0 : st) (batch : list block) (further : list bl
     cr_ok c && (h =? cr_head c) && Bool.eqb (consistent_b t d h) (cr_cons c) &&
     let (s1, e1) := InsertChain t import_fuel (fresh d h) batch in
     (err_code e1 =? cr_rerr c) && (cur s1 =? cr_rhead c) &&
-    match e1 with
-    | EPanic => true
-    | _ => let (s2, _) := InsertChain t import_fuel s1 further in cur s2 =? cr_fhead c
+    match further, e1 with
+    | [], _ | _, EPanic => true
+    | _, _ => let (s2, _) := InsertChain t import_fuel s1 further in cur s2 =? cr_fhead c
     end
   end.
 
